@@ -405,7 +405,7 @@ def params(tier):
     full = (None, UNKNOWN, BI_PARENT)
     if tier == 'thorough':
         s_entries = [(nm, n, 8, full) for nm in ('asc', 'desc', 'bi') for n in (1, 2)] + \
-                    [('asc', 3, 6, full), ('desc', 3, 6, full), ('bi', 3, 5, full),
+                    [('asc', 3, 5, full), ('desc', 3, 5, full), ('bi', 3, 4, full),
                      ('asc', 4, 2, (None, UNKNOWN)), ('desc', 4, 2, (None, UNKNOWN))]
         return {'S': s_entries,
                 'V_parent_grid': [(f, g, m) for (f, g, m) in FULL_GRID if m in ('', 'bold,underline')],
